@@ -8,19 +8,26 @@ HERE="$(cd "$(dirname "${BASH_SOURCE[0]}")/.." && pwd)"
 id="$1"; filter="${2:-}"
 cd /repo
 if [ -n "$(git status --porcelain --untracked-files=no)" ]; then echo "refusing: /repo has uncommitted changes"; exit 2; fi
-trap 'git -C /repo checkout -- . >/dev/null 2>&1' EXIT
+trap 'git -C /repo reset -q --hard HEAD >/dev/null 2>&1' EXIT
 ok=0; miss=0
 for p in "$HERE"/selftest/patches/"$id"/*.diff; do
   name="$(basename "$p" .diff)"
   case "$name" in *"$filter"*) ;; *) continue ;; esac
-  if ! git apply "$p" 2>/dev/null; then echo "SKIP   $name (patch does not apply)"; continue; fi
+  if ! git apply "$p" 2>/dev/null; then
+    # hook commits shift context lines: fall back to a three-way merge
+    if ! git apply --3way "$p" >/dev/null 2>&1; then git reset -q --hard HEAD; echo "SKIP   $name (patch does not apply)"; continue; fi
+    git reset -q
+  fi
   tests="-"
   if [ "${VERIF_SENS_TESTS:-0}" = 1 ]; then
     if CARGO_NET_OFFLINE=true cargo test --workspace --offline >/dev/null 2>&1; then tests="suite-passes"; else tests="suite-FAILS"; fi
   fi
   out="$("$HERE"/check "$id" --tier quick --no-evidence 2>&1)"; rc=$?
-  git checkout -- . >/dev/null 2>&1
+  git reset -q --hard HEAD >/dev/null 2>&1
   viol="$(echo "$out" | grep -m1 '^violation:' | cut -c1-160)"
+  case "$name" in NEGATIVE-CONTROL*)
+    if [ $rc -eq 0 ]; then echo "GREEN  $name [$tests] (semantically neutral change: check stays green, as it must)"; ok=$((ok+1)); else echo "FALSE-ALARM $name rc=$rc $viol"; miss=$((miss+1)); fi; continue;;
+  esac
   if [ $rc -eq 1 ]; then echo "CAUGHT $name [$tests] $viol"; ok=$((ok+1));
   elif [ $rc -eq 0 ]; then echo "MISSED $name [$tests]"; miss=$((miss+1));
   else echo "ERROR  $name rc=$rc [$tests] $(echo "$out" | tail -n 3 | tr '\n' ' ' | cut -c1-300)"; miss=$((miss+1)); fi
